@@ -43,9 +43,15 @@ pub mod mdns;
 pub mod notification;
 pub mod request_response;
 
+#[cfg(not(feature = "verif"))]
 mod connection;
+#[cfg(feature = "verif")]
+pub mod connection;
 mod protocol_set;
+#[cfg(not(feature = "verif"))]
 mod transport_service;
+#[cfg(feature = "verif")]
+pub mod transport_service;
 
 /// Substream direction.
 #[derive(Debug, Copy, Clone, Hash, PartialEq, Eq)]
